@@ -628,6 +628,16 @@ SubprocessResult run_process(const vector<string>& cmd, const string* stdin_data
     }
   }
 
+  // The child is gone. Close the pipe ends that were not already closed by the
+  // loop above: the output pipes (EOF is normally not seen while the child is
+  // running) and the input pipe if the child did not consume all of its input
+  for (const auto& it : read_fd_to_buffer) {
+    close(it.first);
+  }
+  for (const auto& it : write_fd_to_buffer) {
+    close(it.first);
+  }
+
   if (check && sp.wait()) {
     throw runtime_error(string_printf("command returned code %d\nstdout:\n%s\nstderr:\n%s",
         sp.wait(), ret.stdout_contents.c_str(), ret.stderr_contents.c_str()));
